@@ -5,7 +5,7 @@ COQ_PROPS = ["Properties_C05.v"]; COQ_EXTRACT = "Extract_C05.v"
 LEVEL = "proof"
 RULE = ("cases = explicit tree automata over {a/0,b/0,g/1,f/2}(+h/3): corpus; complete slice (all automata with <=2 states and <=3 rules); targeted "
         "(duplicated states = several simulation-equivalent final and non-final states, sparse numbers, useless states, simulation-comparable but "
-        "inequivalent states); histories (Reduce, the same object extended in place without a new state, Reduce again); random up to 5 states. Non-trivial = non-empty language and the result has fewer states than the input; distinct by rule/final sets")
+        "inequivalent states); histories (Reduce, the same object extended in place without a new state, Reduce again); medium-sized automata (8-16 states) over a unary-rich alphabet; random up to 5 states. Non-trivial = non-empty language and the result has fewer states than the input; distinct by rule/final sets")
 EXHAUSTIVE_SLICES = "all automata with 1 state,<=4 rules and 2 states,<=3 rules over {a/0,b/0,g/1,f/2}, every final set (the run as a whole is not exhaustive)"
 TRUSTED_BASE = [
     "Coq 8.16.1 kernel (coqc, full .vo build); vm_compute only in Examples; no native_compute",
@@ -51,6 +51,11 @@ def cases(rng, tier):
             if p == q and rng.random() < 0.6: a.rules.append((f, c, ch))
         a.rules.append((3, rng.choice(st), (c, q)))
         cs.append(("red " + a.fmt(), "targeted"))
+    for _ in range(1000 if tier == "quick" else 25000):   # medium-sized automata over a unary-rich alphabet: long refinement runs of the simulation engine (several pending splits)
+        k = rng.randint(8, 14) if tier == "quick" else rng.randint(8, 16)
+        a = gen.rand_ta(rng, k, rng.randint(k, 2 * k + 4), sigma=gen.SIGMA_U, pfinal=0.2, leafbias=0.3)
+        if rng.random() < 0.3: a, _ = gen.permute_states(rng, a, sparse=True)
+        cs.append(("red " + a.fmt(), "medium_unary"))
     for _ in range(1200 if tier == "quick" else 12000):   # histories: Reduce, in-place extension of the SAME object (no new state), Reduce again
         a = dup_states(rng, gen.rand_ta_sized(rng, 3, 6, leafbias=0.4, pfinal=0.5))
         if rng.random() < 0.3: a, _ = gen.permute_states(rng, a, sparse=True)
